@@ -109,3 +109,52 @@ def alpha_rename_tree(root: str) -> dict:
             stats["modules"] += 1
             stats["locals_renamed"] += n
     return stats
+
+
+def insert_noop_tree(root: str) -> dict:
+    """Second behaviour-preserving rewrite: every function gets a new first statement binding a fresh local
+    (`_sa_probe = None`, after the docstring), and every module a new unused private helper.  Ranks of locals, statement
+    indices and line numbers all shift; nothing the library does changes."""
+    base = os.path.join(root, "src", "onnx_ir")
+    stats = {"modules": 0, "functions": 0}
+    for dp, _dn, fns in os.walk(base):
+        if "_thirdparty" in dp:
+            continue
+        for fn in fns:
+            if not fn.endswith(".py") or fn.endswith("_test.py"):
+                continue
+            path = os.path.join(dp, fn)
+            with open(path, encoding="utf-8") as fh:
+                src = fh.read()
+            tree = ast.parse(src)
+            for node in ast.walk(tree):
+                if isinstance(node, (ast.FunctionDef, ast.AsyncFunctionDef)):
+                    if any(isinstance(d, ast.Name) and d.id == "overload" or (isinstance(d, ast.Attribute) and d.attr == "overload") for d in node.decorator_list):
+                        continue
+                    body = node.body
+                    if len(body) == 1 and isinstance(body[0], ast.Expr) and isinstance(body[0].value, ast.Constant):
+                        continue  # stub: docstring or `...` only (protocol / abstract method)
+                    if len(body) == 1 and isinstance(body[0], (ast.Pass, ast.Raise)):
+                        continue
+                    i = 1 if body and isinstance(body[0], ast.Expr) and isinstance(body[0].value, ast.Constant) and isinstance(body[0].value.value, str) else 0
+                    if len(body) == i + 1 and isinstance(body[i], ast.Expr) and isinstance(body[i].value, ast.Constant):
+                        continue
+                    probe = ast.parse("_sa_probe = None").body[0]
+                    body.insert(i, probe)
+                    stats["functions"] += 1
+            helper = ast.parse("def _sa_unused_helper(x):\n    return x\n").body[0]
+            # after the module docstring and __future__ imports
+            k = 0
+            while k < len(tree.body) and (
+                (isinstance(tree.body[k], ast.Expr) and isinstance(tree.body[k].value, ast.Constant))
+                or (isinstance(tree.body[k], ast.ImportFrom) and tree.body[k].module == "__future__")
+            ):
+                k += 1
+            tree.body.append(helper)
+            ast.fix_missing_locations(tree)
+            new = ast.unparse(tree) + "\n"
+            compile(new, path, "exec")
+            with open(path, "w", encoding="utf-8") as fh:
+                fh.write(new)
+            stats["modules"] += 1
+    return stats
